@@ -452,14 +452,29 @@ func (c *Variant) Equals(obj *Variant) bool {
 		}
 		return true
 	}
-	// Values of uncomparable types (slices, maps) cannot be compared with ==
+	// Values of uncomparable types (slices, maps, functions) cannot be compared with ==
 	type1 := reflect.TypeOf(value1)
 	if type1 != reflect.TypeOf(value2) {
 		return false
 	}
+	if type1.Kind() == reflect.Func {
+		// Functions are equal when they are the same function
+		return reflect.ValueOf(value1).Pointer() == reflect.ValueOf(value2).Pointer()
+	}
 	if !type1.Comparable() {
 		return reflect.DeepEqual(value1, value2)
 	}
+	return equalComparable(value1, value2)
+}
+
+// equalComparable compares two values of one comparable type. A comparable struct
+// or interface type may still hold an uncomparable value, for which == panics.
+func equalComparable(value1 any, value2 any) (result bool) {
+	defer func() {
+		if r := recover(); r != nil {
+			result = reflect.DeepEqual(value1, value2)
+		}
+	}()
 	return value1 == value2
 }
 
